@@ -85,6 +85,130 @@ def const_leaf(c):
     return None
 
 
+_PRIMS = {'u8', 'u16', 'u32', 'u64', 'u128', 'usize', 'i8', 'i16', 'i32', 'i64', 'i128', 'isize',
+          'bool', 'char', 'str', '()'}
+
+
+def split_generic(ty):
+    """'a::B<X, Y<Z>>' -> ('a::B', ['X', 'Y<Z>'])"""
+    i = ty.find('<')
+    if i < 0 or not ty.endswith('>'):
+        return ty, []
+    base, inner = ty[:i], ty[i + 1:-1]
+    args, depth, cur = [], 0, ''
+    for ch in inner:
+        if ch in '<([':
+            depth += 1
+        elif ch in '>)]':
+            depth -= 1
+        if ch == ',' and depth == 0:
+            args.append(cur.strip())
+            cur = ''
+        else:
+            cur += ch
+    if cur.strip():
+        args.append(cur.strip())
+    return base, args
+
+
+class TypeEnv:
+    """type-directed path extension: a field suffix is appended to an access path only when the
+    path's static type has that field (otherwise the leaf is a dependency, not an alias)"""
+    UNKNOWN = None
+
+    def __init__(self, db):
+        self.db = db
+        self.memo = {}
+
+    def peel(self, ty):
+        ty = ty.strip()
+        while True:
+            if ty.startswith('&mut '):
+                ty = ty[5:].strip()
+            elif ty.startswith('&'):
+                ty = ty[1:].strip()
+                if ty.startswith("'"):
+                    ty = ty.split(' ', 1)[1] if ' ' in ty else ty
+            else:
+                base, args = split_generic(ty)
+                if base in ('core::option::Option', 'alloc::boxed::Box', 'alloc::rc::Rc', 'alloc::sync::Arc') and args:
+                    ty = args[0]
+                    continue
+                return ty
+
+    def elem(self, ty):
+        ty = self.peel(ty)
+        base, args = split_generic(ty)
+        if base in ('alloc::vec::Vec', 'alloc::collections::vec_deque::VecDeque', 'core::slice::Iter',
+                    'alloc::vec::IntoIter') and args:
+            return args[0]
+        if ty.startswith('[') and ty.endswith(']'):
+            inner = ty[1:-1]
+            return inner.split(';')[0].strip()
+        a = self.db.adts.get(base)
+        if a and a['kind'] == 'struct':
+            fs = a['variants'][0]['fields']
+            if len(fs) == 1 and fs[0]['name'] == '0':
+                return self.elem(fs[0]['ty'])     # newtype around a vector (Page)
+        if self.known(ty):
+            return False
+        return self.UNKNOWN
+
+    def known(self, ty):
+        ty = self.peel(ty)
+        base, _ = split_generic(ty)
+        return base in self.db.adts or base in _PRIMS or base.endswith('::Felt') or base.startswith('(')
+
+    def field(self, ty, name):
+        """type of field `name` of `ty`; False when ty is known and has no such field; None if unknown"""
+        ty = self.peel(ty)
+        base, args = split_generic(ty)
+        a = self.db.adts.get(base)
+        if a is None:
+            if ty.startswith('(') and name.isdigit():
+                parts = split_generic('T<' + ty[1:-1] + '>')[1]
+                i = int(name)
+                return parts[i] if i < len(parts) else False
+            if base in _PRIMS or base.endswith('::felt::Felt'):
+                return False
+            return self.UNKNOWN
+        if a['kind'] != 'struct':
+            return self.UNKNOWN
+        for f in a['variants'][0]['fields']:
+            if f['name'] == name:
+                ft = f['ty']
+                if '::' not in ft and ft not in _PRIMS and not ft.startswith(('&', '[', '(')):
+                    return self.UNKNOWN if not args else (args[0] if len(args) == 1 else self.UNKNOWN)
+                return ft
+        return False
+
+    def path_type(self, root_ty, suffix):
+        """type of root_ty followed by the access-path suffix ('.a.b[*].c')"""
+        key = (root_ty, suffix)
+        if key in self.memo:
+            return self.memo[key]
+        ty = root_ty
+        for m in re.finditer(r'\.([A-Za-z0-9_]+)|\[\*\]', suffix):
+            if ty is None or ty is False:
+                break
+            if m.group(0) == '[*]':
+                ty = self.elem(ty)
+            else:
+                ty = self.field(ty, m.group(1))
+        self.memo[key] = ty
+        return ty
+
+
+_TYPEENVS = {}
+
+
+def typeenv(db):
+    te = _TYPEENVS.get(id(db))
+    if te is None:
+        te = _TYPEENVS[id(db)] = TypeEnv(db)
+    return te
+
+
 class Summary:
     def __init__(self):
         self.ret = set()
@@ -96,7 +220,8 @@ _SUMMARY_CACHE = {}
 
 
 def summary(db, path, binding, depth, opaque, stack):
-    key = (id(db), path, tuple(sorted(binding.items())) if binding else None, frozenset(opaque))
+    generic = bool(db.fns[path].d.get('generics')) if path in db.fns else True
+    key = (id(db), path, tuple(sorted(binding.items())) if (binding and generic) else None, frozenset(opaque))
     if key in _SUMMARY_CACHE:
         return _SUMMARY_CACHE[key]
     if path in stack or depth > MAX_DEPTH:
@@ -112,6 +237,11 @@ def summary(db, path, binding, depth, opaque, stack):
             s.outs[k] = set(fl.out.get(k, set()))
     _SUMMARY_CACHE[key] = s
     return s
+
+
+_SUFFIX_RE = re.compile(r'\.[A-Za-z0-9_]+|\[\*\]')
+_LEAF_RE = re.compile(r'^a(\d+)(.*)$')
+_SUBST_RE = re.compile(r'^(len\()?a(\d+)(.*?)(\))?$')
 
 
 class Flow:
@@ -131,6 +261,7 @@ class Flow:
         self.ret_ok = set()      # leaves of the accepted return value (Ok payload / plain value)
         self.parent = list(range(n))
         self.out = {}            # param local -> leaves written through the &mut param
+        self._ext_memo = {}
         self.field_writes = []   # (bb, base leaves, field name, leaves, line)
         self.call_ord = {}
         self.site_leaf = {}      # bb -> call leaf for opaque calls
@@ -138,6 +269,35 @@ class Flow:
         for k in range(1, fn.arg_count + 1):
             self.L[k].add(f'a{k}')
         self._solve()
+
+    def ext(self, leaf, suffix):
+        """type-directed extend"""
+        if not (leaf.startswith('a') and len(leaf) > 1 and leaf[1].isdigit()):
+            return leaf
+        m = _LEAF_RE.match(leaf)
+        k = int(m.group(1))
+        if k < len(self.fn.locals):
+            te = typeenv(self.db)
+            t = te.path_type(self.fn.local_ty(k), m.group(2))
+            if t is False:
+                return leaf
+            if t is not None:
+                nt = te.elem(t) if suffix == '[*]' else te.field(t, suffix[1:])
+                if nt is False:
+                    return leaf
+        return extend(leaf, suffix)
+
+    def ext_path(self, leaf, suffix):
+        if not suffix or not (leaf.startswith('a') and len(leaf) > 1 and leaf[1].isdigit()):
+            return leaf
+        key = (leaf, suffix)
+        r = self._ext_memo.get(key)
+        if r is None:
+            r = leaf
+            for m in _SUFFIX_RE.finditer(suffix):
+                r = self.ext(r, m.group(0))
+            self._ext_memo[key] = r
+        return r
 
     # ---- union-find for &mut aliases of whole locals ----
     def find(self, x):
@@ -213,7 +373,7 @@ class Flow:
             if i < len(proj) and isinstance(proj[i], dict) and 'f' in proj[i] \
                     and proj[i].get('adt') not in WRAPPER_ADTS:
                 name = proj[i].get('n', str(proj[i]['f']))
-                cur = {extend(x, '.' + name) for x in self.L[r]} | set(self.store.get(r, {}).get(name, ()))
+                cur = {self.ext(x, '.' + name) for x in self.L[r]} | set(self.store.get(r, {}).get(name, ()))
                 i += 1
             else:
                 cur = self.leaves(base)
@@ -225,9 +385,9 @@ class Flow:
                 if e.get('adt') in WRAPPER_ADTS:
                     continue
                 name = e.get('n', str(e['f']))
-                cur = {extend(x, '.' + name) for x in cur}
+                cur = {self.ext(x, '.' + name) for x in cur}
             elif isinstance(e, dict) and ('i' in e or 'ci' in e or 'sub' in e):
-                cur = {extend(x, '[*]') for x in cur}
+                cur = {self.ext(x, '[*]') for x in cur}
             # downcast: unchanged
         return cur
 
@@ -314,6 +474,15 @@ class Flow:
                     src = s['rv']['place']
                     if all(e == '*' for e in src['p']):
                         self.union(s['place']['l'], src['l'])
+                # raw pointers obtained by casting (vec! / Box internals): writes through the
+                # pointer must reach the owner
+                if s['k'] == 'assign' and s['rv']['k'] == 'cast' and not s['place']['p'] \
+                        and s['rv'].get('to', '').startswith('*'):
+                    src = op_place(s['rv']['a'])
+                    if src is not None:
+                        self.union(s['place']['l'], src['l'])
+                if s['k'] == 'assign' and s['rv']['k'] == 'rawptr' and not s['place']['p']:
+                    self.union(s['place']['l'], s['rv']['place']['l'])
         changed = True
         rounds = 0
         while changed:
@@ -450,7 +619,7 @@ class Flow:
                 res = {('len(' + x + ')') if is_path_leaf(x) and not x.startswith('len(') else x
                        for x in argl[0]}
             elif std and nm in ELEMENT_OF_ARG0 and argl:
-                res = {extend(x, '[*]') for x in argl[0]}
+                res = {self.ext(x, '[*]') for x in argl[0]}
             elif std and nm in TRANSPARENT_ARG0 and argl:
                 res = set(argl[0])
                 # higher-order adaptors keep their closure's effect
@@ -506,7 +675,7 @@ class Flow:
             for a in argl:
                 for x in a:
                     if not x.startswith('closure:'):
-                        elems.add(extend(x, '[*]'))
+                        elems.add(self.ext(x, '[*]'))
             cfn = self.db.fns[p]
             # closure arg 1 = environment (captures): approximated by the closure value's leaves
             actual = [set(x for x in leaves if not x.startswith('closure:'))]
@@ -517,7 +686,7 @@ class Flow:
     def _subst(self, leaves, argl, bi, env_arg=False):
         out = set()
         for lf in leaves:
-            m = re.match(r'^(len\()?a(\d+)(.*?)(\))?$', lf)
+            m = _SUBST_RE.match(lf)
             if m and (m.group(1) is None) == (m.group(4) is None):
                 k = int(m.group(2))
                 suffix = m.group(3)
@@ -526,9 +695,9 @@ class Flow:
                         if env_arg and k == 1:
                             # captured variables: drop the capture field index (.0/.1) of the env
                             suffix2 = re.sub(r'^\.\d+', '', suffix)
-                            y = extend(x, suffix2)
+                            y = self.ext_path(x, suffix2)
                         else:
-                            y = extend(x, suffix)
+                            y = self.ext_path(x, suffix)
                         if m.group(1) and is_path_leaf(y) and not y.startswith('len('):
                             y = 'len(' + y + ')'
                         out.add(y)
@@ -638,6 +807,33 @@ def natural_loop(fn, latch, header):
     return body
 
 
+HASH_SINKS = {
+    'starknet_crypto::pedersen_hash::pedersen_hash': 'pedersen',
+    'starknet_crypto::poseidon_hash::poseidon_hash': 'poseidon',
+    'starknet_crypto::poseidon_hash::poseidon_hash_many': 'poseidon',
+    '<D as digest::digest::Digest>::update': 'digest',
+    '<D as digest::digest::Digest>::chain_update': 'digest',
+    '<D as digest::digest::Digest>::digest': 'digest',
+}
+
+
+def own_sinks(db, fn, fl):
+    """pseudo-guards of relation HASH: the arguments of hash primitives"""
+    ra = cfgmod.reach_accept(fn)
+    out = []
+    for bi, t in fn.calls():
+        p = t['f'].get('resolved') or t['f'].get('path')
+        if p in HASH_SINKS:
+            leaves = set()
+            for a in t.get('args', []):
+                leaves |= fl.operand_leaves(a)
+                leaves |= fl._closure_effect(fl.operand_leaves(a), [fl.operand_leaves(x) for x in t['args']], bi)
+            g = Guard('HASH', leaves, set(), fn.path, bi, t['line'], 'n/a', _covers(fn, bi, ra))
+            g.kind = 'hash:' + HASH_SINKS[p]
+            out.append(g)
+    return out
+
+
 def own_guards(db, fn, fl):
     """guards formed by SwitchInt on a comparison result (or Option/Result discriminant, or
     integer match) with at least one live arm that cannot reach an accepting exit"""
@@ -723,40 +919,63 @@ def _reject_kind(fn, dead_targets):
     return 'err' if kinds == {'err'} else ('panic' if kinds == {'panic'} else 'mixed')
 
 
-def effective_guards(db, path, binding=None, depth=0, stack=(), opaque=None, covers='all'):
-    """own guards of `path` plus the guards of its callees whose rejection propagates (the call's
-    Result is checked and rejects, or the callee rejects by panic), with callee leaves substituted
-    by the actual arguments."""
-    fn = db.fns[path]
-    if not fn.has_mir or path in stack or depth > MAX_DEPTH:
-        return []
-    fl = Flow(db, fn, binding, 0, opaque)
-    out = []
-    for g in own_guards(db, fn, fl):
-        g.covers = _combine(covers, g.covers)
-        out.append(g)
-    ra = cfgmod.reach_accept(fn)
-    for bi, t in fn.calls():
-        targets = db.resolve(t['f'], binding)
-        targets = [p for p in targets if db.fns[p].has_mir]
-        if not targets:
-            continue
-        propagates = True
-        if cfgmod.ty_is_result(t['dest_ty']) and not t['dest']['p']:
-            uses, _ = cfgmod.result_uses(fn, t['dest']['l'], ra)
-            kinds = {u.kind for u in uses}
-            propagates = bool(uses) and not (kinds & {'swallowed', 'escaped'})
-        cov = _combine(covers, _covers(fn, bi, ra))
-        argl = [fl.operand_leaves(a) for a in t.get('args', [])]
-        for p in targets:
-            for g in effective_guards(db, p, binding, depth + 1, stack + (path,), opaque, cov):
-                if g.reject != 'panic' and not propagates:
+_EFF_CACHE = {}
+EFF_MAX_DEPTH = 12
+
+
+def effective_guards(db, path, binding=None, depth=0, stack=(), opaque=None, covers='all', sinks=False):
+    """own guards (and, with sinks=True, hash sinks) of `path` plus those of its callees whose
+    rejection propagates (the call's Result is checked and rejects, or the callee rejects by
+    panic), with callee leaves substituted by the actual arguments. Results are in terms of
+    `path`'s own parameters; memoised per (function, binding)."""
+    generic = bool(db.fns[path].d.get('generics')) if path in db.fns else True
+    key = (id(db), path, tuple(sorted(binding.items())) if (binding and generic) else None, sinks)
+    if key in _EFF_CACHE:
+        base = _EFF_CACHE[key]
+    else:
+        fn = db.fns[path]
+        if not fn.has_mir or path in stack or depth > EFF_MAX_DEPTH:
+            return []
+        fl = Flow(db, fn, binding, 0, opaque)
+        base = []
+        for g in own_guards(db, fn, fl) + (own_sinks(db, fn, fl) if sinks else []):
+            base.append(g)
+        ra = cfgmod.reach_accept(fn)
+        complete = True
+        for bi, t in fn.calls():
+            targets = db.resolve(t['f'], binding)
+            targets = [p for p in targets if db.fns[p].has_mir]
+            if not targets:
+                continue
+            propagates = True
+            if cfgmod.ty_is_result(t['dest_ty']) and not t['dest']['p']:
+                uses, _ = cfgmod.result_uses(fn, t['dest']['l'], ra)
+                kinds = {u.kind for u in uses}
+                propagates = bool(uses) and not (kinds & {'swallowed', 'escaped'})
+            cov = _covers(fn, bi, ra)
+            argl = [fl.operand_leaves(a) for a in t.get('args', [])]
+            for p in targets:
+                if p in stack or p == path:
+                    complete = False
                     continue
-                g2 = Guard(g.rel, fl._subst(g.lhs, argl, bi), fl._subst(g.rhs, argl, bi), g.fn, g.bb,
-                           g.line, g.reject, g.covers)
-                g2.kind = getattr(g, 'kind', None)
-                g2.via = [f'{path}@{t["line"]}'] + g.via
-                out.append(g2)
+                for g in effective_guards(db, p, binding, depth + 1, stack + (path,), opaque, 'all', sinks):
+                    if g.reject != 'panic' and not propagates:
+                        continue
+                    g2 = Guard(g.rel, fl._subst(g.lhs, argl, bi), fl._subst(g.rhs, argl, bi), g.fn, g.bb,
+                               g.line, g.reject, _combine(cov, g.covers))
+                    g2.kind = getattr(g, 'kind', None)
+                    g2.via = [f'{path}@{t["line"]}'] + g.via
+                    base.append(g2)
+        if complete or not stack:
+            _EFF_CACHE[key] = base
+    if covers == 'all':
+        return base
+    out = []
+    for g in base:
+        g2 = Guard(g.rel, g.lhs, g.rhs, g.fn, g.bb, g.line, g.reject, _combine(covers, g.covers))
+        g2.kind = getattr(g, 'kind', None)
+        g2.via = g.via
+        out.append(g2)
     return out
 
 
